@@ -14,7 +14,26 @@ from cv import graphs  # noqa: E402
 from cv.core import VERIF, Check  # noqa: E402
 from cayleypy import CayleyGraphDef, MatrixGenerator, create_graph  # noqa: E402
 
-THEOREMS = []
+THEOREMS = [
+    "Cv.C10.lrx4_created",
+    "Cv.C10.c3_created",
+    "Cv.C10.c3_makeIC",
+    "Cv.C10.c3_inverted",
+    "Cv.C10.lastIndexOf_spec",
+    "Cv.C10.inverseMapPerm_spec",
+    "Cv.C10.inverseClosed_iff",
+    "Cv.C10.inverted_spec",
+    "Cv.C10.inverted_succeeds",
+    "Cv.C10.makeIC_prefix",
+    "Cv.C10.makeIC_closed",
+    "Cv.C10.makeIC_idem",
+    "Cv.C10.makeIC_succeeds",
+    "Cv.C10.makeIC_names",
+    "Cv.C10.makeIC_gens",
+    "Cv.C10.revertPath_spec",
+    "Cv.C10.Matrix.inv_sound",
+    "Cv.C10.Matrix.isInverse_symm",
+]
 
 
 def L(xs):
